@@ -1,6 +1,7 @@
 package commitlog
 
 import (
+	"io"
 	"os"
 	"sort"
 )
@@ -46,7 +47,11 @@ func findSegmentIndexByTimestamp(segments []*segment, timestamp int64) (int, err
 		// Read the first entry in the segment to determine the base timestamp.
 		var entry entry
 		if e := segments[i].Index.ReadEntryAtLogOffset(&entry, 0); e != nil {
-			err = e
+			if e != io.EOF {
+				err = e
+			}
+			// An empty segment (only the active one can be empty) holds
+			// nothing at or before the timestamp; it is not an error.
 			return true
 		}
 		return entry.Timestamp > timestamp
